@@ -34,7 +34,8 @@ Record cfg : Type := mkCfg {
   nel : bool;            (* fNEL: XML 1.1 line ends *)
   isName : N -> bool;    (* isNameChar *)
   isFirstName : N -> bool;
-  isWS : N -> bool       (* isWhitespace *)
+  isWS : N -> bool;      (* isWhitespace *)
+  isNCName : N -> bool   (* isNCNameChar *)
 }.
 
 Record reader : Type := mkR {
@@ -433,6 +434,83 @@ Definition get_name (c : cfg) (fuel : nat) (r : reader) (token : bool) : res (re
   end.
 
 (* ------------------------------------------------------------------------------------------- *)
+(** * XMLReader::getNCName and getQName (same look-ahead and append-before-refresh structure as getName; the loop over
+      name characters is [name_loop] with the NCName character class) *)
+Definition with_name_class (c : cfg) (f : N -> bool) : cfg :=
+  mkCfg (X c) (cbsz c) (rbsz c) (low c) (fillraw c) (safename c) (nel c) f (isFirstName c) (isWS c) (isNCName c).
+
+(** [acc0] = content already in toFill (reversed), for the second half of a QName *)
+Definition get_ncname_into (c : cfg) (fuel : nat) (r : reader) (acc0 : list N) : res (reader * (bool * list N)) rerr :=
+  let cn := with_name_class c (isNCName c) in
+  let fin (x : res (reader * list N) rerr) :=
+    match x with
+    | Err e => Err e
+    | Ok (r', nm) => Ok (r', (true, nm))
+    end in
+  match ensure c r with
+  | Err e => Err e
+  | Ok (r1, false) => Ok (r1, (false, acc0))
+  | Ok (r1, true) =>
+    match ccur r1 with
+    | [] => Err Fault
+    | x :: t =>
+      if is_high x then
+        let cont (r2 : reader) : res (reader * (bool * list N)) rerr :=
+          match rd r2 0, rd r2 1 with
+          | Some x0, Some y =>
+            if is_low y then match adv r2 2 with Ok r3 => fin (name_loop cn fuel r3 [y; x0] acc0) | Err e => Err e end
+            else Ok (r2, (false, acc0))
+          | Some _, None => if safename c then Ok (r2, (false, acc0)) else Err Fault
+          | None, _ => Err Fault
+          end in
+        match t with
+        | [] =>
+          match refresh_char c r1 with
+          | Err e => Err e
+          | Ok (r2, false) => Ok (r2, (false, acc0))
+          | Ok (r2, true) => cont r2
+          end
+        | _ => cont r1
+        end
+      else if isFirstName c x && negb (x =? 0x3A) then                      (* isFirstNCNameChar *)
+        match adv1 r1 with Ok r2 => fin (name_loop cn fuel r2 [x] acc0) | Err e => Err e end
+      else Ok (r1, (false, acc0))
+    end
+  end.
+
+Definition get_ncname (c : cfg) (fuel : nat) (r : reader) : res (reader * (bool * list N)) rerr :=
+  match get_ncname_into c fuel r [] with
+  | Ok (r', (b, nm)) => Ok (r', (b, rev nm))
+  | Err e => Err e
+  end.
+
+(** getQName: result (returned bool, toFill, colon position or None for -1) *)
+Definition get_qname (c : cfg) (fuel : nat) (r : reader) : res (reader * (bool * list N * option nat)) rerr :=
+  match get_ncname_into c fuel r [] with
+  | Err e => Err e
+  | Ok (r1, (false, nm)) => Ok (r1, (false, rev nm, None))
+  | Ok (r1, (true, nm)) =>
+    match ensure c r1 with
+    | Err e => Err e
+    | Ok (r2, false) => Ok (r2, (true, rev nm, None))
+    | Ok (r2, true) =>
+      match rd r2 0 with
+      | None => Err Fault
+      | Some ch =>
+        if negb (ch =? 0x3A) then Ok (r2, (true, rev nm, None)) else
+        match adv1 r2 with
+        | Err e => Err e
+        | Ok r3 =>
+          match get_ncname_into c fuel (add_col r3 1) (0x3A :: nm) with
+          | Err e => Err e
+          | Ok (r4, (b, nm2)) => Ok (r4, (b, rev nm2, Some (length nm)))
+          end
+        end
+      end
+    end
+  end.
+
+(* ------------------------------------------------------------------------------------------- *)
 (** * ReaderMgr::popReader (src/xercesc/internal/ReaderMgr.cpp), the path that does not throw EndOfEntity:
       the reader stack is a list (head = most recently pushed parent).  After popping, "we might have multiple readers
       on the stack that are empty (the last char in them was the ';' of the entity reference that pushed the next
@@ -531,6 +609,9 @@ Definition xc_utf8 : xcoder := fun src m => x8_fast (S (length src)) src m 0.
 Definition xc_utf16 (swapped : bool) : xcoder := fun src m =>
   let o := u16_from swapped src m in Ok (o, (2 * length o)%nat).
 Definition xc_latin1 : xcoder := fun src m => let o := l1_from src m in Ok (o, length o).
+(** XMLUCS4Transcoder (C05's model; [swapped] relative to the little-endian host) *)
+Definition xc_ucs4 (swapped : bool) : xcoder := fun src m =>
+  match u4_from swapped src m with Ok (o, _, e) => Ok (o, e) | Err e => Err e end.
 
 Definition step_latin1 (s : list N) : dres := match s with [] => DNeed | b :: _ => DOut [b] 1 end.
 Definition step_utf16 (swapped : bool) (s : list N) : dres :=
